@@ -11,7 +11,7 @@ from exprgen import *
 import gen_casttable
 
 PID = 'C01'
-THEOREMS = ['C01_common_type', 'C01_typing', 'C01_cast_table', 'C01_arith', 'C01_compare', 'C01_shift',
+THEOREMS = ['C01_expr_correct', 'C01_expr_nonvacuous', 'C01_common_type', 'C01_typing', 'C01_cast_table', 'C01_arith', 'C01_compare', 'C01_shift',
             'C01_neg', 'C01_bitnot', 'C01_lognot', 'C01_nonvacuous']
 MODELRUN = os.path.join(VERIF, 'ocaml/modelrun')
 PRINTF = 'int printf(const char *, ...);\n'
@@ -210,7 +210,7 @@ def main():
         gen_casttable.gen(REPO, os.path.join(COQ, 'theories/Gen/CastTable.v'))
     except GenError as e:
         run.proof_broken.append('translator: ' + str(e))
-    run.check_proofs(deps=['theories/Model/CodegenInt.vo', 'theories/Gen/CastTable.vo', 'theories/Model/ConstFold.vo'])
+    run.check_proofs(deps=['theories/Model/CodegenInt.vo', 'theories/Gen/CastTable.vo', 'theories/Model/ConstFold.vo', 'theories/Model/ExprGen.vo', 'theories/Proofs/ExprGenProofs.vo'])
     rc, o, e = sh([os.path.join(VERIF, 'ocaml/build.sh')], timeout=900)
     if rc != 0:
         run.corr_broken.append('extracted model does not build: ' + (o + e)[-300:])
@@ -224,6 +224,61 @@ def main():
     for m in mism[:5]:
         run.corr_broken.append('emitted instructions differ from the proved model for `%s` (%s): emitted %s, model %s' % (m['function'], m['operator'], m['emitted'], m['model']))
     if mism: write_replay(PID, 'text_mismatches.json', mism[:50])
+
+    # (a2) instruction text of whole expression trees = extracted compile (Model/ExprGen.v, proved to compute the C11 value)
+    def big_leaf_tree(depth):
+        r = rng.random()
+        if depth <= 0 or r < 0.12:
+            t = rng.choice(['i32', 'u32', 'i64', 'u64', 'i32', 'i32'])
+            v = rng.choice([0, 1, 2, 3, 7, 31, 32, 63, 64, 255, 256, 65535, tmax(t), tmax(t) - 1, rng.randint(0, tmax(t))])
+            return ('L', t, min(v, tmax(t)))
+        if r < 0.24: return ('U', rng.choice(list(UNOPS)), big_leaf_tree(depth - 1))
+        if r < 0.72: return ('B', rng.choice(list(BINOPS)), big_leaf_tree(depth - 1), big_leaf_tree(depth - 1))
+        if r < 0.86: return ('C', rng.choice(TYPES), big_leaf_tree(depth - 1))
+        if r < 0.95: return ('Q', big_leaf_tree(depth - 1), big_leaf_tree(depth - 1), big_leaf_tree(depth - 1))
+        return ('M', big_leaf_tree(depth - 1), big_leaf_tree(depth - 1))
+    NT = 300 if run.quick() else 3000
+    trees = [big_leaf_tree(rng.choice([1, 2, 3, 4, 5, 6])) for _ in range(NT)]
+    rets = [rng.choice(['i64', 'i64', 'i32', 'u8', 'bool', 'u64', 'i16']) for _ in trees]
+    ft = os.path.join(wd, 'trees.c')
+    open(ft, 'w').write(''.join('%s t%d(void) { return %s; }\n' % (CNAME[rt], i, to_const_c(e)) for i, (e, rt) in enumerate(zip(trees, rets))))
+    rc, asm, err = sh(CHIBI + ['-S', '-o', '-', ft], timeout=300)
+    rc2, mo, me = sh([MODELRUN, 'compile'], input='\n'.join('C %s %s' % (rt, to_prefix(e)) for e, rt in zip(trees, rets)) + '\n', timeout=300)
+    if rc != 0: run.violation(dict(kind='valid-program-rejected', stderr=err[-400:], note='functions returning generated integer expressions'), dict(area='text-tree'))
+    elif rc2 != 0: run.corr_broken.append('extracted compile failed: ' + me[-200:])
+    else:
+        def norm(lines):
+            out = []; labels = {}
+            for l in lines:
+                l = re.sub(r'\s+', ' ', l.strip())
+                m = re.match(r'mov \$(-?\d+), %rax$', l)
+                if m: l = 'mov $%d, %%rax' % (int(m.group(1)) % (1 << 64))
+                l = re.sub(r'\.L\.(\w+)\.(\d+)', lambda m: '.L.%s.%d' % (m.group(1), labels.setdefault(m.group(2), len(labels))), l)
+                out.append(l)
+            return out
+        bodies = {}; cur = None; started = False
+        for l in asm.split('\n'):
+            t = l.strip()
+            m = re.match(r'^(t\d+):$', t)
+            if m: cur = m.group(1); bodies[cur] = []; started = False; continue
+            if cur is None or not t or t.startswith('.loc') or t.startswith('.file'): continue
+            if t == 'mov %rsp, -8(%rbp)' and not started: started = True; continue
+            if not started: continue
+            if t.startswith('jmp .L.return.') and t == 'jmp .L.return.%s' % cur: cur = None; continue
+            bodies[cur].append(t)
+        mlines = mo.split('\n')
+        nbad = 0
+        for i, (e, rt) in enumerate(zip(trees, rets)):
+            evals += 1
+            got = norm(bodies.get('t%d' % i, ['<missing>'])); want = norm([x for x in mlines[i].split('; ') if x])
+            if got != want:
+                nbad += 1
+                d = next((j for j in range(min(len(got), len(want))) if got[j] != want[j]), min(len(got), len(want)))
+                if nbad <= 5:
+                    run.corr_broken.append('instructions emitted for `%s t(void) { return %s; }` differ from the proved composition at instruction %d: emitted %s, model %s' % (CNAME[rt], to_const_c(e)[:160], d, got[max(0, d - 1):d + 3], want[max(0, d - 1):d + 3]))
+                    write_replay(PID, 'tree_%d.c' % i, '%s t(void) { return %s; }\n' % (CNAME[rt], to_const_c(e)))
+            else: nontriv.add(('tree', i))
+        samples.append({'expression-tree': to_const_c(trees[0])[:200], 'emitted': norm(bodies.get('t0', []))[:12]})
 
     # (b) run-time evaluation in every context against the Coq spec
     cases = runtime_cases(rng, 600 if run.quick() else 5000, [1, 1, 2, 2, 3] if run.quick() else [1, 2, 3, 4, 5])
